@@ -10,16 +10,20 @@ package net
 //   - reference model of the frame checks: wrong magic, length > MAX_PAYLOAD_LEN, short payload and
 //     checksum mismatch must be rejected; for an oversize length a counting reader shows that only
 //     the 24 header bytes were consumed;
-//   - cumulative allocation (MemStats.TotalAlloc delta, single goroutine) <= 64 x stream + 1 MiB
+//   - cumulative allocation (MemStats.TotalAlloc delta, single goroutine) <= 256 x stream + 1 MiB
 //     (+ the declared length when it is legal: that is the payload buffer);
 //   - mutated payloads that decode: decode(encode(decode(b))) == decode(b) (semantic idempotence).
 
 import (
 	"bytes"
+	"crypto/elliptic"
 	"encoding/binary"
 	"encoding/hex"
+	"encoding/json"
 	"fmt"
+	"os"
 	"sort"
+	"strings"
 	"testing"
 
 	"github.com/ontio/ontology/common"
@@ -51,42 +55,66 @@ func clip(b []byte, n int) []byte {
 
 // ---------------------------------------------------------------------------------------------
 
-func TestC24_KnownWitnesses(t *testing.T) {
+// The three witness tests replay the deterministic witness of each finding made by this check. While
+// a finding still reproduces and is not listed in known_findings.json they report the violation.
+func witnessTest(t *testing.T, name string, still, known bool, stream []byte, format string, detail string) {
+	ev := c24ev()
+	if !still {
+		ev.Class("witness:" + name + ":fixed")
+		return
+	}
+	ev.Class("witness:" + name + ":reproduces")
+	if !known {
+		harn.Violation(t, "C24", map[string]string{"stream": hex.EncodeToString(stream)}, format, detail)
+	}
+}
+
+func TestC24_WitnessAddrCount(t *testing.T) {
 	setup()
 	replayKnown()
-	ev := c24ev()
-	t.Run("addr-count", func(t *testing.T) {
-		if !addrStill {
-			ev.Class("witness:addr-count:fixed")
-			return
-		}
-		ev.Class("witness:addr-count:reproduces")
-		if !knownAddr {
-			harn.Violation(t, "C24", map[string]string{"stream": hex.EncodeToString(witnessAddr())},
-				"addr message with count 2^63 (payload 0000000000000080): %s", addrDetail)
-		}
-	})
-	t.Run("ccmsg-siglen", func(t *testing.T) {
-		if !ccStill {
-			ev.Class("witness:ccmsg-siglen:fixed")
-			return
-		}
-		ev.Class("witness:ccmsg-siglen:reproduces")
-		if !knownCC {
-			harn.Violation(t, "C24", map[string]string{"stream": hex.EncodeToString(witnessCC(1 << 63))},
-				"block message whose cross-chain message declares 2^63 signatures: %s", ccDetail)
-		}
-	})
+	witnessTest(t, "addr-count", addrStill, knownAddr, witnessAddr(), "addr message with count 2^63 (payload 0000000000000080): %s", addrDetail)
+}
+
+func TestC24_WitnessCCMsgSigLen(t *testing.T) {
+	setup()
+	replayKnown()
+	witnessTest(t, "ccmsg-siglen", ccStill, knownCC, witnessCC(1<<63), "block message whose cross-chain message declares 2^63 signatures: %s", ccDetail)
+}
+
+func TestC24_WitnessOffCurveKey(t *testing.T) {
+	setup()
+	replayKnown()
+	witnessTest(t, "offcurve-pubkey", curveStill, knownCurve, witnessOffCurve(),
+		"consensus message whose owner key is the uncompressed P-256 point (x=0300..00, y=0), not on the curve: %s", curveDetail)
+}
+
+func TestC24_WitnessOfflineProposerSig(t *testing.T) {
+	setup()
+	replayKnown()
+	witnessTest(t, "offline-proposersig", offStill, knownOff, witnessOffline(),
+		"a correctly signed offline-witness message written by the reference encoder (== OfflineWitnessMsg.Serialization) is not decoded: %s", offDetail)
 }
 
 func TestC24_RoundTrip(t *testing.T) {
 	setup()
 	ev := c24ev()
+	replayKnown()
 	for _, c := range allCmds {
-		ev.Floor("roundtrip:"+c, "", 0.02)
+		if c == pcom.SUBNET_OFFLINE_TYPE && knownOff {
+			continue
+		}
+		ev.Floor("roundtrip:"+c, "roundtrip", 0.01)
 	}
-	harn.Check(t, 2500, 160000, func(t *rapid.T) {
+	harn.Check(t, 2500, 60000, func(t *rapid.T) {
 		g := genMsg(t)
+		if g.cmd == pcom.SUBNET_OFFLINE_TYPE && knownOff {
+			// recorded finding: the decoder skips ProposerSig, no offline message decodes; only "no panic" is left
+			if v := judge(refFrame(g.cmd, g.p.b)); v.bad() {
+				failStream(t, "generated "+g.descr, refFrame(g.cmd, g.p.b), v)
+			}
+			ev.Excluded()
+			return
+		}
 		var ser []byte
 		func() {
 			defer func() {
@@ -123,6 +151,7 @@ func TestC24_RoundTrip(t *testing.T) {
 		if pan != nil || err != nil || consumed != len(frame) || canon(m1) != v.Canon {
 			t.Fatalf("%s: reading from a two-frame stream: err=%v panic=%v consumed=%d want %d", g.descr, err, pan, consumed, len(frame))
 		}
+		ev.Class("roundtrip")
 		ev.Class("roundtrip:" + g.cmd)
 		ev.Case(g.size > 0, "roundtrip "+g.descr)
 	})
@@ -137,10 +166,10 @@ func TestC24_HeaderMutants(t *testing.T) {
 	kinds := []string{"magic", "oversize", "shorter", "longer", "checksum", "payloadbit", "cut", "biglegal", "valid", "cmd"}
 	for _, k := range kinds {
 		if k != "biglegal" {
-			ev.Floor("hdr:"+k, "", 0.04)
+			ev.Floor("hdr:"+k, "hdr", 0.04)
 		}
 	}
-	harn.Check(t, 2500, 160000, func(t *rapid.T) {
+	harn.Check(t, 2500, 40000, func(t *rapid.T) {
 		m := rapid.SampledFrom([]uint32{def, def, 0, 0xffffffff, 0x74746e41, 1}).Draw(t, "netmagic")
 		setMagic(m)
 		defer setMagic(def)
@@ -215,12 +244,13 @@ func TestC24_HeaderMutants(t *testing.T) {
 		if mustReject && v.Kind != "err" {
 			failStream(t, "header mutant "+kind+" of "+g.descr+" must be rejected", stream, v)
 		}
-		if kind == "valid" && v.Kind != "msg" {
+		if kind == "valid" && v.Kind != "msg" && !(g.cmd == pcom.SUBNET_OFFLINE_TYPE && knownOff) {
 			failStream(t, "untouched frame of "+g.descr+" rejected", stream, v)
 		}
-		if kind == "oversize" && (v.Consumed != 24 || v.Alloc > uint64(64*len(stream))+1<<20) {
+		if kind == "oversize" && (v.Consumed != 24 || v.Alloc > uint64(256*len(stream))+1<<20+p224Slack(stream)) {
 			failStream(t, fmt.Sprintf("oversize length: consumed %d bytes (want 24), allocated %d", v.Consumed, v.Alloc), stream, v)
 		}
+		ev.Class("hdr")
 		ev.Class("hdr:" + kind)
 		ev.Class("hdr:" + kind + ":" + v.Kind)
 		ev.Case(len(stream) >= 24, fmt.Sprintf("hdr %s magic=%#x %s", kind, m, shortHex(stream)))
@@ -294,6 +324,10 @@ func TestC24_HostileCounts(t *testing.T) {
 			ev.Class("timeout")
 			return
 		}
+		if v.Kind == "offcurve" && knownCurve {
+			ev.Excluded()
+			return
+		}
 		if v.bad() {
 			fatal(desc, stream, v)
 			return
@@ -304,9 +338,23 @@ func TestC24_HostileCounts(t *testing.T) {
 		ev.Case(true, desc)
 	}
 
+	if rp := os.Getenv("VERIF_REPLAY"); strings.HasSuffix(rp, ".case.json") {
+		var saved struct {
+			Case struct{ Stream, What string }
+		}
+		b, err := os.ReadFile(rp)
+		if err != nil || json.Unmarshal(b, &saved) != nil {
+			t.Fatalf("cannot read replay file %s: %v", rp, err)
+		}
+		stream, _ := hex.DecodeString(saved.Case.Stream)
+		if v, _ := judgeIsolated(stream); v.bad() {
+			t.Fatalf("replayed %s\n verdict %s: %s", saved.Case.What, v.Kind, v.Detail)
+		}
+		return
+	}
 	// (a) deterministic sweep: every count field of a few examples of every kind x every hostile value
 	var first string
-	nEx := harn.N(2, 24)
+	nEx := harn.N(2, 12)
 	for _, cmd := range cmdsWithCounts {
 		cmd := cmd
 		gen := rapid.Custom(func(t *rapid.T) gm { return genMsgOf(t, cmd) })
@@ -329,10 +377,11 @@ func TestC24_HostileCounts(t *testing.T) {
 		}
 	}
 	// (b) random: generated message, one drawn count field, one drawn hostile encoding
-	harn.Check(t, 1500, 120000, func(t *rapid.T) {
+	harn.Check(t, 1500, 60000, func(t *rapid.T) {
 		g := genMsgOf(t, rapid.SampledFrom(cmdsWithCounts).Draw(t, "cmd"))
-		if len(g.p.counts) == 0 {
-			t.Fatalf("harness: %s has no count field", g.cmd)
+		if len(g.p.counts) == 0 { // getmembers from a seed node has none
+			ev.Class("hostile:nocountfield")
+			return
 		}
 		i := rapid.IntRange(0, len(g.p.counts)-1).Draw(t, "field")
 		encs, names := hostileEncodings(g.p.counts[i])
@@ -354,7 +403,7 @@ func TestC24_Truncation(t *testing.T) {
 	setup()
 	ev := c24ev()
 	ev.Floor("trunc:msg", "trunc", 0.01)
-	harn.Check(t, 1200, 80000, func(t *rapid.T) {
+	harn.Check(t, 1200, 12000, func(t *rapid.T) {
 		g := genMsg(t)
 		cuts := map[int]bool{}
 		for _, o := range g.p.bounds {
@@ -397,6 +446,14 @@ func TestC24_Truncation(t *testing.T) {
 
 // ---------------------------------------------------------------------------------------------
 
+// kinds that carry serialized public keys, and the names of the length fields in front of them
+var keyCmds = []string{pcom.CONSENSUS_TYPE, pcom.UPDATE_KADID_TYPE, pcom.GET_SUBNET_MEMBERS_TYPE, pcom.HEADERS_TYPE, pcom.BLOCK_TYPE}
+
+func isKeyField(name string) bool {
+	f := fieldClass(name)
+	return strings.HasSuffix(f, "cons.owner.len") || strings.HasSuffix(f, "kad.key.len") || strings.HasSuffix(f, "req.key.len") || strings.HasSuffix(f, "bk.len")
+}
+
 var edgeBytes = []byte{0x00, 0x01, 0x02, 0x7f, 0x80, 0xfc, 0xfd, 0xfe, 0xff}
 
 func TestC24_ByteMutants(t *testing.T) {
@@ -404,8 +461,8 @@ func TestC24_ByteMutants(t *testing.T) {
 	ev := c24ev()
 	ev.Floor("mut:msg", "mut", 0.05)
 	ev.Floor("mut:err", "mut", 0.05)
-	modes := []string{"replace", "insert", "delete", "splice", "random", "trailing", "dup"}
-	harn.Check(t, 4000, 250000, func(t *rapid.T) {
+	modes := []string{"replace", "insert", "delete", "splice", "random", "trailing", "dup", "keyform"}
+	harn.Check(t, 4000, 160000, func(t *rapid.T) {
 		g := genMsg(t)
 		pay := append([]byte{}, g.p.b...)
 		cmd := g.cmd
@@ -450,6 +507,33 @@ func TestC24_ByteMutants(t *testing.T) {
 			}
 		case "trailing":
 			pay = append(pay, rapid.SliceOfN(rapid.Byte(), 1, 40).Draw(t, "tail")...)
+		case "keyform": // a compressed P-256 key re-encoded uncompressed (accepted alternative form), optionally moved off the curve
+			g = genMsgOf(t, rapid.SampledFrom(keyCmds).Draw(t, "keycmd"))
+			cmd, pay = g.cmd, append([]byte{}, g.p.b...)
+			var cand []cmark
+			for _, c := range g.p.counts {
+				if c.Val == 33 && c.Width == 1 && isKeyField(c.Name) && (pay[c.Off+1] == 2 || pay[c.Off+1] == 3) {
+					cand = append(cand, c)
+				}
+			}
+			if len(cand) == 0 {
+				mode = "keyform:nokey"
+				break
+			}
+			c := cand[rapid.IntRange(0, len(cand)-1).Draw(t, "whichkey")]
+			x, y := elliptic.UnmarshalCompressed(elliptic.P256(), pay[c.Off+1:c.Off+34])
+			if x == nil {
+				t.Fatalf("harness: zoo key %x does not decompress", pay[c.Off+1:c.Off+34])
+			}
+			unc := make([]byte, 65)
+			unc[0] = 4
+			x.FillBytes(unc[1:33])
+			y.FillBytes(unc[33:65])
+			if rapid.Bool().Draw(t, "offcurve") {
+				unc[32] ^= 1 // x+-1: about half of these are not the x-coordinate of any curve point
+				mode = "keyform:offcurve"
+			}
+			pay = append(append(append(append([]byte{}, pay[:c.Off]...), 65), unc...), pay[c.Off+34:]...)
 		case "dup": // duplicate a slice of the payload (repeated elements)
 			if len(pay) < 2 {
 				break
@@ -466,6 +550,9 @@ func TestC24_ByteMutants(t *testing.T) {
 		desc := fmt.Sprintf("mut %s cmd=%q of %s -> %s", mode, cmd, g.cmd, shortHex(pay))
 		if v.bad() {
 			failStream(t, desc, stream, v)
+		}
+		if mode == "keyform" && v.Kind != "msg" && !(cmd == pcom.SUBNET_OFFLINE_TYPE) {
+			failStream(t, desc+": an uncompressed encoding of a valid key was rejected", stream, v)
 		}
 		ev.Class("mut")
 		ev.Class("mut:" + v.Kind)
@@ -505,7 +592,7 @@ func FuzzC24_ReadMessage(f *testing.F) {
 				}
 			}
 		}
-		if v := judge(stream); v.bad() {
+		if v := judge(stream); v.bad() && !(v.Kind == "offcurve" && knownCurve) {
 			t.Fatalf("verdict %s: %s\n stream (%d bytes) %x", v.Kind, v.Detail, len(stream), clip(stream, 2000))
 		}
 	}
